@@ -194,6 +194,16 @@ static torrent::Handshake* find_handshake(uint16_t port) {
   return nullptr;
 }
 
+// The leader transfer of a COMPLETED block stays in the block, with its peer reference, until the piece is hashed or the
+// torrent closed (it names the sender if the hash fails): by design, not a leak. Counted separately.
+static int finished_leaders(Ctx& c, torrent::PeerInfo* pi) {
+  int n = 0;
+  for (torrent::BlockList* l : *c.T->main()->delegator()->transfer_list())
+    for (auto& b : *l)
+      if (b.is_finished() && b.leader() != nullptr && (pi == nullptr || const_cast<torrent::BlockTransfer*>(b.leader())->peer_info() == pi)) n++;
+  return n;
+}
+
 static std::string pi_str(Ctx& c, SPeer& p) {
   if (c.removed) return "x";
   std::vector<std::string> v;
@@ -205,7 +215,7 @@ static std::string pi_str(Ctx& c, SPeer& p) {
     if (pi->is_handshake()) s += "h";
     if (pi->is_unwanted()) s += "u";
     if (s.empty()) s = "-";
-    s += ":" + std::to_string(pi->transfer_counter());
+    s += ":" + std::to_string((int)pi->transfer_counter() - finished_leaders(c, pi));
     v.push_back(s);
   }
   std::sort(v.begin(), v.end());
@@ -265,15 +275,17 @@ static std::string glob(Ctx& c, const KernelView& kv) {
     size_t bt = 0;
     for (torrent::BlockList* l : *m->delegator()->transfer_list())
       for (auto& b : *l) bt += b.queued()->size() + b.transfers()->size();
+    size_t bf = finished_leaders(c, nullptr);
+    bt -= bf;
     o << "cn" << c.T->dl.connection_list()->size() << ",hs" << hm()->size()
       << ",uu" << m->info()->upload_unchoked() << ",du" << m->info()->download_unchoked()
       << ",geu" << m->up_group_entry()->unchoked()->size() << "/" << m->up_group_entry()->queued()->size()
       << ",ged" << m->down_group_entry()->unchoked()->size() << "/" << m->down_group_entry()->queued()->size()
       << ",px" << m->info()->size_pex()
       << ",cr" << refs << ",cw" << wr << ",cb" << bl
-      << ",tl" << m->delegator()->transfer_list()->size() << ",bt" << bt;
+      << ",tl" << m->delegator()->transfer_list()->size() << ",bt" << bt << ",bf" << bf;
   } else {
-    o << "cn0,hs" << hm()->size() << ",uu0,du0,geu0/0,ged0/0,px0,cr0,cw0,cb0,tl0,bt0";
+    o << "cn0,hs" << hm()->size() << ",uu0,du0,geu0/0,ged0/0,px0,cr0,cw0,cb0,tl0,bt0,bf0";
   }
   o << ",cqu" << cg->up_queue()->size_unchoked() << "/" << cg->up_queue()->size_queued()
     << ",cqd" << cg->down_queue()->size_unchoked() << "/" << cg->down_queue()->size_queued()
@@ -460,6 +472,15 @@ static bool make_scenario(const std::string& name, Scenario& s) {
     s.maxconn = 1;
     s.steps = {A(0, "max"), A(0, "conn"), B(0, "hsa", 60), A(1, "conn"), B(1, "hsa", 60), B(0, "hsb", 8), B(0, "bf0", 6),
                B(1, "hsb", 8), B(1, "bf0", 6), A(2, "conn"), B(2, "hs", 68), B(0, "in", 5)};
+  } else if (name == "fullx") {
+    // the same with extension-protocol peers while PEX is active (size_pex is counted from the handshake on)
+    s.have = std::string(NP, '1');
+    s.priv = false;
+    s.npeers = 3;
+    s.maxconn = 1;
+    s.ext[0] = s.ext[1] = s.ext[2] = true;
+    s.steps = {A(0, "ptick"), A(0, "max"), A(0, "conn"), B(0, "hsa", 60), A(1, "conn"), B(1, "hsa", 60), B(0, "hsb", 8), B(0, "bf0", 6), B(0, "xh", 0),
+               B(1, "hsb", 8), B(1, "bf0", 6), B(1, "xh", 0), A(2, "conn"), B(2, "hs", 68), B(0, "in", 5)};
   } else {
     return false;
   }
@@ -484,7 +505,7 @@ static std::string step_bytes(Ctx& c, const Step& st) {
   Torrent* T = c.T;
   const std::string& k = st.kind;
   if (k == "hsa" || k == "hsb") {
-    std::string h = WirePeer::handshake(T->info_hash, peer_id(g_case_no, st.peer), std::string(8, '\0'));
+    std::string h = WirePeer::handshake(T->info_hash, peer_id(g_case_no, st.peer), p.ext ? WirePeer::reserved_ext() : std::string(8, '\0'));
     return k == "hsa" ? h.substr(0, 60) : h.substr(60);
   }
   if (k == "hs") return WirePeer::handshake(T->info_hash, peer_id(g_case_no, st.peer), p.ext ? WirePeer::reserved_ext() : std::string(8, '\0'));
@@ -627,7 +648,7 @@ static bool all_zero_glob(const std::string& g, std::string& why) {
         if (a == std::string::npos || (a2 != std::string::npos && a2 > a)) a = a2;
         why = s.substr(a == std::string::npos ? 0 : a + 1, q - (a == std::string::npos ? 0 : a + 1));
         // tl = pieces with partial data kept in the TransferList: retained by design until close(), no transfers attached (bt)
-        if (why.compare(0, 2, "tl") == 0) { p = q; continue; }
+        if (why.compare(0, 2, "tl") == 0 || why.compare(0, 2, "bf") == 0) { p = q; continue; }
         return false;
       }
       p = q;
@@ -653,6 +674,28 @@ static std::string layout(const std::string& name) {
 }
 
 static std::unique_ptr<Session> g_S;
+
+// print the result of the current case and leave: the session cannot be torn down (an assertion would fire)
+[[noreturn]] static void abandon_session(const std::string& out) {
+  std::cout << out << "\n";
+  std::cout.flush();
+  { std::error_code ec; if (g_S) fs::remove_all(g_S->scratch(), ec); }
+  // rc 0 only if this was the last case on stdin (ltv.run_sharded resumes after a non-zero exit)
+  _exit(std::cin.peek() == EOF ? 0 : 3);
+}
+
+// PEX slots (DownloadInfo::size_pex) held by live handshakes / connections of the torrent
+static int live_pex_holders(Ctx& c) {
+  int n = 0;
+  for (torrent::Peer* p : *c.T->dl.connection_list()) {
+    auto* e = p->m_ptr()->m_extensions;
+    if (e != nullptr && !e->is_default() && e->is_local_enabled(torrent::ProtocolExtension::UT_PEX)) n++;
+  }
+  auto* base = (torrent::HandshakeManager::base_type*)hm();
+  for (auto& h : *base)
+    if (h && h->download() == c.T->main() && !h->extensions()->is_default() && h->extensions()->is_local_enabled(torrent::ProtocolExtension::UT_PEX)) n++;
+  return n;
+}
 
 static std::string run_case(const std::string& line) {
   std::map<std::string, std::string> kv;
@@ -755,6 +798,14 @@ static std::string run_case(const std::string& line) {
     if (p->w.fd != -1 && p->w.eof) c.ev.push_back("E" + std::to_string(p->id));   // the library hung up on the peer
 
   std::string pre = ledger(c, true);
+  if ((int)c.T->main()->info()->size_pex() != live_pex_holders(c)) {
+    // a PEX slot is counted that no live handshake or connection holds: it can never be given back
+    std::string out = "ev=";
+    for (auto& e : c.ev) out += e + ",";
+    out += " pre=[" + pre + "] post=[-] stop=[-] fin=[-] || VIOL stop-not-zero:px-orphan" + std::to_string(c.T->main()->info()->size_pex() - live_pex_holders(c)) +
+           " ;; restart=skipped cl=-";
+    abandon_session(out);
+  }
   c.ev.push_back("F");
   close_window_begin();
 
@@ -853,6 +904,15 @@ static std::string run_case(const std::string& line) {
   {
     std::string why;
     if (!all_zero_glob(stop, why)) c.viol.push_back("stop-not-zero:" + why);
+    if (!c.removed && c.T->main()->info()->size_pex() != 0) {
+      // ~DownloadMain asserts size_pex() == 0: report the leak instead of dying in the assertion; the session is abandoned
+      std::string out = "ev=";
+      for (auto& e : c.ev) out += e + ",";
+      out += " pre=[" + pre + "] post=[" + post + "] stop=[" + stop + "] fin=[-] || VIOL";
+      for (auto& v : c.viol) out += " " + v;
+      out += " ;; restart=skipped cl=" + (cl.empty() ? "-" : cl);
+      abandon_session(out);
+    }
   }
 
   // ---- restart and finish / serve with a healthy peer
